@@ -3,19 +3,22 @@
 
 def setup(register, COMMON_TB):
     register(
-        "C17", coq="C17", coq_extra=["k8s", "ngx", "gen", "C04", "C08"], pkg="./internal/mode/static/", test="TestVerifC17",
-        extra=[dict(pkg="./internal/mode/static/status/", test="TestVerifC08")],
+        "C17", coq="C17", coq_extra=["k8s", "ngx", "gen", "C04", "C08", "C01"], pkg="./internal/mode/static/", test="TestVerifC17",
+        extra=[dict(pkg="./internal/mode/static/status/", test="TestVerifC08"),
+               dict(pkg="./internal/mode/static/", test="TestVerifC17Own")],
         rule="every generated cluster state (as C02) is run through the real handler twice: alone, and together with foreign objects that mimic the own "
              "ones (GatewayClass of another controller, an older Gateway of that class with the same listeners, copies of the own Routes attached to it, a "
              "mesh-style Route, a policy on the foreign Gateway); every Route starts with a status entry of another controller; non-trivial = at least 2 "
              "own routes; distinct = distinct own state. Second part (the C08 harness, evaluated by C08/Check.v): the real status setters under the real retry "
              "function with faults injected and foreign entries that another writer changes between a Get and the Update; the entries of other "
-             "controllers in every submitted status must be exactly those of the object served by the last Get",
+             "controllers in every submitted status must be exactly those of the object served by the last Get. Third part (TestVerifC17Own, evaluated by "
+             "C01/Check.v): histories whose only changes are ownership changes (a Gateway handed over to / taken from another class, the configured class "
+             "changing hands, Routes retargeted): configuration and statuses of the long-lived controller equal those of a fresh one",
         trusted_base=COMMON_TB + [
             "ownership relation (C17/Check.v owned) over the abstract state",
             "configuration equality is decided on parsed files with top-level blocks as multisets and match keys replaced by the match lists they denote",
             "controller-runtime fake client as API server",
         ],
-        assumptions=["ownership-changing histories are covered by the C01 check"],
+        assumptions=[],
         timeout={"quick": 900, "thorough": 7200},
     )
